@@ -4,10 +4,10 @@ from harness.common import finish, load_findings, run_pool, seed
 from symx import selftest
 
 
-def tasks_for(prop, tier, cfg=None, structure_filter=None, scenario="single", judge=None, sizes=None, findings_prop=None):
+def tasks_for(prop, tier, cfg=None, structure_filter=None, scenario="single", judge=None, sizes=None, findings_prop=None, structures=None):
     findings = [f for f in load_findings(findings_prop or prop) if f.get("family") == "stage"]
     tasks = []
-    for st in stage.structures(tier):
+    for st in (structures if structures is not None else stage.structures(tier)):
         if structure_filter and not structure_filter(st):
             continue
         k = len(stage.R.free_vars(st["rows"]))
